@@ -18,6 +18,21 @@ default handlers and default_serialize_error, down to the response fields ("a 50
 
 Class hierarchies are real classes built with type(); the registry is a real dict; handlers, the request, the media
 handlers and the encoders are opaque recording stubs.  Every harness also runs natively for replay.
+
+Frames (what each step must leave alone; each has a mutation in KILLS that this clause refutes):
+    _find_error_handler      registry, every other app field, the exception
+    _handle_exception        registry, app, request, raised exception, params; of the response only the body fields, status and
+                             headers are written (cookies / extra headers survive); status + headers survive until the handler
+                             runs; nothing is stamped on the response when no handler exists
+    add_error_handler        nothing but the registry on the app; exception classes, the caller's iterable and handler untouched
+    App.__init__             two apps never share a registry
+    _compose_*_response      the raised HTTPStatus / HTTPError (and its headers container), app, request; response fields other
+                             than status / headers / text (status) resp. the serialized body (error)
+    default handlers         app, exception, params, request (log line aside), other response fields
+    HTTPError                to_dict / to_json / _to_xml leave the error unchanged, to_dict returns a new dict per call;
+                             __init__ sets exactly the documented attributes and does not edit the given headers
+    default_serialize_error  error, request, options / media-handler registry; response status, cookies and other fields
+Every harness declares its covers with v.expect_covers(...), so an outcome whose v.cover is never executed is reported too.
 """
 from __future__ import annotations
 
@@ -316,6 +331,10 @@ class Serializer:
 
     def __call__(self, req, resp, error):
         self.calls.append((req, resp, error))
+        # what the serializer sees: the response header map at the moment it is called (it appends Vary: Accept, sets the
+        # Content-Type ...), so the error's own headers must already be in place -- otherwise they overwrite what it adds
+        h = self.v.get(resp, '_headers')
+        self.headers_seen = Map(h.arr if hasattr(h, 'arr') else dict(h))
         self.v.set(resp, '_data', b'<serialized>')
 
 
@@ -326,7 +345,8 @@ def mk_resp(v, with_body=True):
         f = dict(text=v.str('text0'), _data=v.bytes('data0'), _media=Tok('media0'), _media_rendered=v.bytes('rendered0'))
     else:
         f = dict(text=None, _data=None, _media=None, _media_rendered=unset)
-    resp = v.obj(RESP, status='200 OK', _headers=hdrs, _extra_headers=None, _cookies=None, **f)
+    # (cookies and raw Set-Cookie headers set so far: opaque objects, so that "left alone" is an identity, not None == None)
+    resp = v.obj(RESP, status='200 OK', _headers=hdrs, _extra_headers=Tok('extra-headers-set-so-far'), _cookies=Tok('cookies-set-so-far'), **f)
     return resp, H0
 
 
@@ -348,8 +368,6 @@ def handle_exception(v, asgi):
     PARAM = Tok('param')
     params = {'id': PARAM}
     v.expect_covers('no-handler', 'handler-returns', 'handler-raises-status', 'handler-raises-error', 'handler-raises-other')
-    COOKIES = Tok('cookies-set-so-far')
-    v.set(resp, '_cookies', COOKIES)  # opaque: whatever cookies were set before the exception
     R0, app0, req0, resp0, ex0 = dict(R), snapshot(app), snapshot(req), snapshot(resp), snapshot(ex)
     out = v.call(app, req, resp, ex, params)
 
@@ -528,9 +546,12 @@ def registry_history(v, asgi):
     C = type('C', (Exception,), {})
     D = type('D', (C,), {})
     HTTPError = v.real('falcon:HTTPError')
+    v.expect_covers('history-done')
     R = default_registry(v)
     spec = dict(R)
     app = v.obj(AAPP if asgi else APP, _error_handlers=R)
+    app0 = snapshot(app)
+    class_attrs0 = {c: dict(vars(c)) for c in (C, D)}
     n = 1 + v.choose(3, 'history-length')
     for i in range(n):
         cls = [C, D, Exception, HTTPError][v.choose(4, 'class#%d' % i)]
@@ -544,6 +565,9 @@ def registry_history(v, asgi):
     v.check('registry-domain-is-defaults-plus-registered', set(got) == set(spec))
     v.check('latest-registration-per-class-wins', all(got.get(k) is spec[k] for k in spec))
     v.check('default-handler-classes-stay-registered', all(k in got for k in (Exception, HTTPError, v.real('falcon:HTTPStatus'))))
+    # frame: a registration is one write into the registry -- nothing else on the app, nothing on the exception classes
+    v.check('registration-writes-nothing-but-the-registry', same_fields(snapshot(app), app0, except_for=('_error_handlers',)))
+    v.check('exception-classes-are-not-modified', all(same_mapping(dict(vars(c)), class_attrs0[c]) for c in class_attrs0))
     v.cover('history-done')
 
 
@@ -558,6 +582,9 @@ def registry_shapes(v, asgi):
     R[C] = old
     R0 = dict(R)
     app = v.obj(AAPP if asgi else APP, _error_handlers=R)
+    v.expect_covers('registered', 'default-handle', 'no-default-handle', 'rejected', *([] if asgi else ['legacy']))
+    app0 = snapshot(app)
+    class_attrs0 = {c: dict(vars(c)) for c in (C, D, N, Plain)}
     shape = v.choose(7, 'exception-arg')
     arg, classes, bad = [
         (C, [C], None),
@@ -570,8 +597,16 @@ def registry_shapes(v, asgi):
     ][shape]
     kind = v.choose(2 if asgi else 3, 'handler-kind')  # 0 explicit, 1 omitted, 2 legacy signature (WSGI only)
     h = [Handler(v, 'h', asgi), None, LegacyHandler('legacy')][kind]
+    arg0 = list(arg) if isinstance(arg, list) else None
+    h0 = snapshot(h) if h is not None else None
     out = v.call(app, arg, h) if kind != 1 else v.call(app, arg)
     got = v.get(app, '_error_handlers')
+    # frames on every outcome (accepted, rejected): nothing but the registry is written on the app; the classes, the
+    # caller's iterable and the caller's handler object are only read
+    v.check('registration-writes-nothing-but-the-registry', same_fields(snapshot(app), app0, except_for=('_error_handlers',)))
+    v.check('exception-classes-are-not-modified', all(same_mapping(dict(vars(c)), class_attrs0[c]) for c in class_attrs0))
+    v.check('given-iterable-of-classes-is-not-modified', arg0 is None or (len(arg) == len(arg0) and all(a is b for a, b in zip(arg, arg0))))
+    v.check('given-handler-object-is-not-modified', h is None or same_fields(snapshot(h), h0, except_for=('calls',)))
     if kind == 1 and shape != 0:
         # no explicit handler: only a single class that defines `handle` is acceptable
         v.check('omitted-handler-without-handle-attribute-rejected', out.exc is not None and out.exc.isa(AttributeError))
@@ -647,6 +682,7 @@ def _is_method(v, got, app, name):
 
 
 def app_init(v, asgi):
+    v.expect_covers('constructed', 'second-app-constructed')
     cls = v.real(AAPP if asgi else APP)
     app = v.obj(cls)
     out = v.call(app, cors_enable=bool(v.choose(2, 'cors_enable')))
@@ -662,6 +698,19 @@ def app_init(v, asgi):
     v.check('no-other-default-handlers', set(got) == {Exception, HTTPError, HTTPStatus} | extra)
     v.check('default-serializer-is-default_serialize_error', v.get(app, '_serialize_error') is v.real('falcon.app_helpers:default_serialize_error'))
     v.cover('constructed')
+    # frame across constructions: the registry is the app's own -- add_error_handler writes into it in place, so two apps
+    # of one process must never get the same dict (or a handler registered on one would answer for the other)
+    domain0, handlers0 = list(got), dict(got)
+    app2 = v.obj(cls)
+    out2 = v.call(app2, cors_enable=False)
+    v.check('no-exception', out2.exc is None)
+    if out2.exc is not None:
+        return
+    got2 = v.get(app2, '_error_handlers')
+    v.check('registry-is-not-shared-between-apps', isinstance(got2, dict) and got2 is not got)
+    v.check('constructing-another-app-leaves-this-registry-alone', v.get(app, '_error_handlers') is got and list(got) == domain0 and all(got[k] is handlers0[k] for k in domain0))
+    v.check('each-app-registers-its-own-bound-default-handlers', Exception in got2 and _is_method(v, got2[Exception], app2, '_python_error_handler'))
+    v.cover('second-app-constructed')
 
 
 @harness(PROP, APP + '.__init__', setup=_init_setup, inline=[APP + '.add_error_handler'])
@@ -693,6 +742,15 @@ def raised_headers(v, base):
     return {n: val}, [(n, val)], True
 
 
+def same_container(now, before):
+    """A headers argument (None / dict / list of pairs) still holds the very same names and values."""
+    if before is None:
+        return now is None
+    if isinstance(before, dict):
+        return isinstance(now, dict) and same_mapping(now, before)
+    return len(now) == len(before) and all(a[0] is b[0] and a[1] is b[1] for a, b in zip(now, before))
+
+
 def compose_status_response(v):
     app = v.obj(APP, _serialize_error=Serializer(v))
     req = Req(v)
@@ -701,6 +759,9 @@ def compose_status_response(v):
     hdrs, pairs, cookie = raised_headers(v, 'st')
     text = v.str('st_text') if v.choose(2, 'st-text?') else None
     st = mk_exc(v, v.real('falcon:HTTPStatus'), status=v.str('st_status'), headers=hdrs, text=text)
+    v.expect_covers('status-with-set-cookie' if cookie else 'status-composed')
+    hdrs0 = None if hdrs is None else (dict(hdrs) if isinstance(hdrs, dict) else list(hdrs))
+    app0, req0, resp0, st0 = snapshot(app), snapshot(req), snapshot(resp), snapshot(st)
     out = v.call(app, req, resp, st)
     if cookie:
         v.cover('status-with-set-cookie')
@@ -709,6 +770,11 @@ def compose_status_response(v):
     v.check('no-exception', out.exc is None)
     if out.exc is not None:
         return
+    # frames: rendering copies FROM the raised object INTO status / headers / text of the response; the raised object (and
+    # its headers container), the app, the request and every other response field (cookies, extra headers ...) are only read
+    v.check('raised-http-status-is-not-modified', same_fields(snapshot(st), st0) and same_container(hdrs, hdrs0))
+    v.check('app-and-request-are-not-modified', same_fields(snapshot(app), app0) and same_fields(snapshot(req), req0))
+    v.check('only-status-headers-and-text-of-the-response-are-written', same_fields(snapshot(resp), resp0, except_for=('status', 'text')))
     v.check('status-copied', v.get(resp, 'status') == (st.status if v.concrete else st.fields['status']))
     v.check('headers-copied-others-unchanged', map_of(v, resp).eq(headers_after(H0, pairs)))
     v.check('text-copied', (v.get(resp, 'text') is None) if text is None else (v.get(resp, 'text') == text))
@@ -724,6 +790,9 @@ def compose_error_response(v):
     resp, H0 = mk_resp(v, with_body=False)
     hdrs, pairs, cookie = raised_headers(v, 'err')
     err = mk_exc(v, v.real('falcon:HTTPError'), status=v.str('err_status'), headers=hdrs, title=v.str('err_title'), description=None, code=None, link=None)
+    v.expect_covers('error-with-set-cookie' if cookie else 'error-composed')
+    hdrs0 = None if hdrs is None else (dict(hdrs) if isinstance(hdrs, dict) else list(hdrs))
+    app0, req0, resp0, err0 = snapshot(app), snapshot(req), snapshot(resp), snapshot(err)
     out = v.call(app, req, resp, err)
     if cookie:
         v.cover('error-with-set-cookie')
@@ -732,12 +801,20 @@ def compose_error_response(v):
     v.check('no-exception', out.exc is None)
     if out.exc is not None:
         return
+    # frames: status and headers are copied, the body is the serializer's business (the stub writes _data); everything else
+    # -- the error and its headers container, the app, the request, text / media / cookies of the response -- is only read
+    v.check('raised-http-error-is-not-modified', same_fields(snapshot(err), err0) and same_container(hdrs, hdrs0))
+    v.check('app-and-request-are-not-modified', same_fields(snapshot(app), app0) and same_fields(snapshot(req), req0))
+    v.check('only-status-headers-and-the-serialized-body-of-the-response-are-written', same_fields(snapshot(resp), resp0, except_for=('status', '_data')))
     v.check('status-copied', v.get(resp, 'status') == (err.status if v.concrete else err.fields['status']))
     v.check('headers-copied-others-unchanged', map_of(v, resp).eq(headers_after(H0, pairs)))
     v.check('serialization-delegated-once-to-configured-serializer', len(ser.calls) == 1)
     if len(ser.calls) == 1:
         c = ser.calls[0]
         v.check('serializer-gets-req-resp-error', c[0] is req and c[1] is resp and c[2] is err)
+        # "its own status and headers AND a body ... with Vary: Accept": the serializer runs on a response that already carries
+        # the error's headers (it appends to Vary); headers applied afterwards would overwrite what it wrote
+        v.check('error-headers-are-in-place-before-the-serializer-runs', ser.headers_seen.eq(headers_after(H0, pairs)))
     v.cover('error-composed')
 
 
@@ -760,7 +837,8 @@ def default_handler(v, asgi, which):
     app = v.obj(AAPP if asgi else APP, _serialize_error=ser)
     req = Req(v)
     resp, H0 = mk_resp(v, with_body=False)
-    params = {}
+    PARAM = Tok('param')
+    params = {'id': PARAM}
     HTTPStatus, HTTPError = v.real('falcon:HTTPStatus'), v.real('falcon:HTTPError')
     if which == 'status':
         text = v.str('st_text') if v.choose(2, 'st-text?') else None
@@ -769,11 +847,18 @@ def default_handler(v, asgi, which):
         ex = mk_exc(v, HTTPError, status=v.str('err_status'), headers=None, title=v.str('err_title'), description=None, code=None, link=None)
     else:
         ex = mk_exc(v, [Sub, KeyError, Exception][v.choose(3, 'raised')])
+    v.expect_covers('handled')
+    app0, req0, resp0, ex0 = snapshot(app), snapshot(req), snapshot(resp), snapshot(ex)
     out = v.call(app, req, resp, ex, params)
     v.check('never-re-raises' if which == 'python' else 'returns-normally', out.exc is None and out.value is None)
     if out.exc is not None:
         return
     v.check('headers-untouched', map_of(v, resp).eq(H0))
+    # frames: a default handler renders; the app, the handled exception, the responder params and every response field other
+    # than status / text / the serialized body are only read (the request at most receives the log line of the 500: WSGI)
+    v.check('app-exception-and-params-are-not-modified', same_fields(snapshot(app), app0) and same_fields(snapshot(ex), ex0) and list(params.items()) == [('id', PARAM)])
+    v.check('request-is-not-modified', same_fields(snapshot(req), req0) and (which == 'python' or len(req.logged) == 0))
+    v.check('only-status-text-and-the-serialized-body-of-the-response-are-written', same_fields(snapshot(resp), resp0, except_for=('status', 'text', '_data')))
     if which == 'status':
         v.check('renders-the-http-status', And(v.get(resp, 'status') == (ex.status if v.concrete else ex.fields['status']),
                                                (v.get(resp, 'text') is None) if text is None else (v.get(resp, 'text') == text), len(ser.calls) == 0))
@@ -912,13 +997,19 @@ def dict_is(d, exp):
 
 @harness(PROP, HE + '.to_dict')
 def http_error_to_dict(v):
+    v.expect_covers('dict')
     f = error_fields(v)
     err = mk_http_error(v, f)
+    err0 = snapshot(err)
     out = v.call(err)
     v.check('no-exception', out.exc is None)
     if out.exc is not None:
         return
     d = out.value
+    # frame: a representation is computed from the error; the error itself keeps its fields (no cached dict either)
+    v.check('to-dict-leaves-the-error-unchanged', same_fields(snapshot(err), err0))
+    out2 = v.call(err)
+    v.check('each-call-returns-a-new-dict', out2.exc is None and isinstance(out2.value, dict) and out2.value is not d)
     v.check('title-always-present', isinstance(d, dict) and 'title' in d and veq(d['title'], f['title']))
     for k in ('description', 'code', 'link'):
         v.check('%s-present-iff-not-none' % k, (k in d) == (f[k] is not None))
@@ -928,6 +1019,7 @@ def http_error_to_dict(v):
 
 @harness(PROP, HE + '.__init__', setup=_error_setup)
 def http_error_init(v):
+    v.expect_covers('link', 'no-link', 'constructed')
     err = v.obj(HE)
     status = v.str('status')
     v.assume(contains(status, ' '))  # a status line "ddd reason"; other accepted forms are normalised by code_to_http_status (C05)
@@ -954,6 +1046,11 @@ def http_error_init(v):
         v.cover('link')
     else:
         v.check('no-link-without-href', g('link') is None)
+        v.cover('no-link')
+    # frame: the constructor stores the documented attributes on the new error and touches nothing it was given
+    v.check('sets-exactly-the-documented-attributes', set(snapshot(err)) == {'status', 'title', 'description', 'headers', 'code', 'link'})
+    v.check('given-headers-are-stored-not-modified', headers is None or list(headers.items()) == [('X-A', 'b')])
+    v.cover('constructed')
 
 
 @stubclass
@@ -987,13 +1084,17 @@ def json_of(data):
 
 @harness(PROP, HE + '.to_json', setup=_error_setup, inline=[HE + '.to_dict'])
 def http_error_to_json(v):
+    v.expect_covers('json', 'json-by-given-handler', 'json-by-default-handler')
     f = error_fields(v)
     err = mk_http_error(v, f)
     h = JsonH(v) if v.choose(2, 'handler-given?') else None
+    err0 = snapshot(err)
     out = v.call(err, h)
     v.check('no-exception', out.exc is None)
     if out.exc is not None:
         return
+    v.check('to-json-leaves-the-error-unchanged', same_fields(snapshot(err), err0))
+    v.cover('json-by-given-handler' if h is not None else 'json-by-default-handler')
     exp = expected_dict(f)
     if h is not None:
         v.check('given-handler-encodes-exactly-the-dict-as-json', len(h.calls) == 1 and dict_is(h.calls[0][0], exp) and h.calls[0][1] == MEDIA_JSON and out.value is h.calls[0][2])
@@ -1049,12 +1150,16 @@ def xml_doc_is(v, data, f):
 
 @harness(PROP, HE + '._to_xml', setup=_error_setup)
 def http_error_to_xml(v):
+    v.expect_covers('xml')
     f = error_fields(v)
     err = mk_http_error(v, f)
+    err0 = snapshot(err)
+    link0 = None if f['link'] is None else dict(f['link'])
     out = v.call(err)
     v.check('no-exception', out.exc is None)
     if out.exc is not None:
         return
+    v.check('to-xml-leaves-the-error-unchanged', same_fields(snapshot(err), err0) and (link0 is None or same_mapping(f['link'], link0)))
     v.check('xml-document-has-exactly-title-and-the-non-none-fields', xml_doc_is(v, out.value, f))
     v.cover('xml')
 
@@ -1136,10 +1241,23 @@ def default_serialize_error(v):
     v.set(resp, 'options', Options(xml, mh))
     f = error_fields(v)
     err = mk_http_error(v, f)
+    v.expect_covers('json-suffix', 'xml-suffix', 'nothing-acceptable', 'json-with-handler', 'json-builtin', 'media-handler',
+                    'xml-builtin' if xml else 'no-serializer')
+    opts = v.get(resp, 'options')
+    err0, resp0, req0, opts0, mh0, types0 = snapshot(err), snapshot(resp), snapshot(req), snapshot(opts), snapshot(mh), list(types)
     out = v.call(req, resp, err)
     v.check('no-exception', out.exc is None)
     if out.exc is not None:
         return
+    # frames: serializing an error writes the body (data or media, with the rendered-media cache), Content-Type and Vary of
+    # the response -- not its status, cookies or other fields; the error, the request, the response options and the app's
+    # media-handler registry (its list of types included) are only read
+    v.check('serializing-leaves-the-error-unchanged', same_fields(snapshot(err), err0))
+    v.check('serializing-leaves-the-request-unchanged', same_fields({k: x for k, x in snapshot(req).items() if k != 'last'}, req0))  # (`last`: the stub's own note)
+    v.check('serializing-leaves-options-and-media-handlers-unchanged',
+            v.get(resp, 'options') is opts and same_fields(snapshot(opts), opts0) and same_fields(snapshot(mh), mh0, except_for=('handler',))
+            and len(types) == len(types0) and all(a is b for a, b in zip(types, types0)))
+    v.check('only-the-body-of-the-response-is-written-status-and-cookies-stay', same_fields(snapshot(resp), resp0, except_for=('_data', '_media', '_media_rendered')))
     H1 = map_of(v, resp)
 
     # what is offered to the client, in order: JSON first (wins ties), built-in XML only when enabled, then the app's own types
@@ -1254,9 +1372,19 @@ def default_chain(v, asgi):
         ex = mk_exc(v, HTTPStatus, status=status, headers=None, text=v.str('st_text'))
     else:
         ex = mk_exc(v, Quit)
+    v.expect_covers('status', 'rendered', 'json-500', 'json-error', 'not-handled')
+    R = v.get(app, '_error_handlers')
+    R0, app0, ex0, resp0 = dict(R), snapshot(app), snapshot(ex), snapshot(resp)
     out = v.call(app, req, resp, ex, {})
+    # frames of the whole default chain: the registry the app was constructed with, the app, the raised exception, and every
+    # response field that is not status / body (cookies, extra headers) survive the handling of an exception
+    v.check('handling-leaves-the-registry-unchanged', v.get(app, '_error_handlers') is R and same_mapping(R, R0))
+    v.check('handling-writes-no-app-state', same_fields(snapshot(app), app0))
+    v.check('handling-leaves-the-raised-exception-unchanged', same_fields(snapshot(ex), ex0))
+    v.check('only-body-status-and-headers-of-the-response-are-written', same_fields(snapshot(resp), resp0, except_for=BODY_FIELDS + ('status',)))
     if what == 3:
         v.check('non-exception-baseexception-is-not-handled-by-default', out.exc is None and out.value is False)
+        v.cover('not-handled')
         return
     v.check('never-escapes-and-is-handled', out.exc is None and out.value is True)
     if out.exc is not None:
@@ -1332,6 +1460,98 @@ KILLS = [
      "        self._compose_error_response(req, resp, HTTPInternalServerError())\n        raise error\n", 'falcon.app:App._python_error_handler#never-re-raises'),
     ('falcon/app.py', "        resp.text = http_status.text\n", "        if http_status.text is not None:\n            resp.text = http_status.text\n",
      '_compose_status_response#text-copied'),
+    # --- frames (audit: a post-condition silent about state lets a change that corrupts it verify)
+    # the lookup marks the exception it resolved / keeps a hit counter on the app
+    ('falcon/app.py', "            if handler is not None:\n                return handler\n        return None\n",
+     "            if handler is not None:\n                ex.__handled_as__ = exc\n                return handler\n        return None\n",
+     '_find_error_handler#lookup-leaves-the-exception-unchanged'),
+    ('falcon/app.py', "            if handler is not None:\n                return handler\n        return None\n",
+     "            if handler is not None:\n                self._error_handler_hits = getattr(self, '_error_handler_hits', 0) + 1\n                return handler\n        return None\n",
+     '_find_error_handler#lookup-writes-no-other-app-state'),
+    # the memo of the second seeding round, moved from the lookup to its call site
+    ('falcon/app.py', "        err_handler = self._find_error_handler(ex)\n\n        # NOTE(caselit): Reset body, data and media before calling the handler\n        resp.text = resp.data = resp.media = None\n        if err_handler is not None:\n            try:\n", "        err_handler = self._find_error_handler(ex)\n\n        # NOTE(caselit): Reset body, data and media before calling the handler\n        resp.text = resp.data = resp.media = None\n        if err_handler is not None:\n            try:\n                self._error_handlers[type(ex)] = err_handler\n",
+     'falcon.app:App._handle_exception#handling-leaves-the-registry-unchanged'),
+    # cookies set so far are discarded together with the body
+    ('falcon/app.py', "        resp.text = resp.data = resp.media = None\n        if err_handler is not None:\n", "        resp.text = resp.data = resp.media = resp._cookies = None\n        if err_handler is not None:\n",
+     'falcon.app:App._handle_exception#only-body-status-and-headers-of-the-response-are-written'),
+    # the status set so far is overwritten before the handler runs
+    ('falcon/app.py', "        resp.text = resp.data = resp.media = None\n        if err_handler is not None:\n", "        resp.text = resp.data = resp.media = None\n        resp.status = '500 Internal Server Error'\n        if err_handler is not None:\n",
+     'falcon.app:App._handle_exception#status-and-headers-survive-until-the-handler'),
+    # the exception is exposed to the handler through the responder params / marked as handled / remembered on request and app
+    ('falcon/app.py', "            try:\n                err_handler(req, resp, ex, params)\n            except HTTPStatus as status:", "            try:\n                params.setdefault('exception', ex)\n                err_handler(req, resp, ex, params)\n            except HTTPStatus as status:",
+     'falcon.app:App._handle_exception#handling-leaves-the-params-unchanged'),
+    ('falcon/app.py', "            try:\n                err_handler(req, resp, ex, params)\n            except HTTPStatus as status:", "            try:\n                ex.handled = True\n                err_handler(req, resp, ex, params)\n            except HTTPStatus as status:",
+     'falcon.app:App._handle_exception#handling-leaves-the-raised-exception-unchanged'),
+    ('falcon/app.py', "            try:\n                err_handler(req, resp, ex, params)\n            except HTTPStatus as status:", "            try:\n                req.last_error = ex\n                err_handler(req, resp, ex, params)\n            except HTTPStatus as status:",
+     'falcon.app:App._handle_exception#handling-leaves-the-request-unchanged'),
+    ('falcon/app.py', "            try:\n                err_handler(req, resp, ex, params)\n            except HTTPStatus as status:", "            try:\n                self._last_error = ex\n                err_handler(req, resp, ex, params)\n            except HTTPStatus as status:",
+     'falcon.app:App._handle_exception#handling-writes-no-app-state'),
+    # an unhandled exception already stamps a 500 on the response before it is re-raised to the caller
+    ('falcon/app.py', "        # handlers.\n        return False\n", "        # handlers.\n        resp.status = '500 Internal Server Error'\n        return False\n",
+     'falcon.app:App._handle_exception#status-and-headers-left-alone-when-no-handler'),
+    # --- frames of a registration
+    # registering any handler resets the error serializer to the default one
+    ('falcon/app.py', "            self._error_handlers[exc] = handler\n", "            self._error_handlers[exc] = handler\n            self._serialize_error = helpers.default_serialize_error\n",
+     'falcon.app:App.add_error_handler#registration-writes-nothing-but-the-registry'),
+    # the handler is also planted on the (user-defined) exception class
+    ('falcon/app.py', "            self._error_handlers[exc] = handler\n", "            self._error_handlers[exc] = handler\n            if exc.__module__ != 'builtins':\n                exc.__falcon_handler__ = handler\n",
+     'falcon.app:App.add_error_handler#exception-classes-are-not-modified'),
+    # the caller's list of classes is consumed
+    ('falcon/app.py', "            exception_tuple = tuple(exception)  # type: ignore[arg-type]\n",
+     "            exception_tuple = tuple(exception)  # type: ignore[arg-type]\n            if isinstance(exception, list):\n                exception.clear()\n",
+     'falcon.app:App.add_error_handler#given-iterable-of-classes-is-not-modified'),
+    # the handler callable is tagged
+    ('falcon/app.py', "        for exc in exception_tuple:\n            if not issubclass(exc, BaseException):\n",
+     "        handler._falcon_error_handler = True  # type: ignore[attr-defined]\n        for exc in exception_tuple:\n            if not issubclass(exc, BaseException):\n",
+     'falcon.app:App.add_error_handler#given-handler-object-is-not-modified'),
+    # --- frames of construction and rendering
+    # one registry for every app of the process
+    ('falcon/app.py', "        self._error_handlers = {}\n", "        self._error_handlers = helpers.__dict__.setdefault('_ERROR_HANDLERS', {})\n", 'App.__init__#registry-is-not-shared-between-apps'),
+    # rendering an HTTPStatus consumes its headers (a pre-built status object raised twice loses them the second time)
+    ('falcon/app.py', "        if http_status.headers is not None:\n            resp.set_headers(http_status.headers)\n",
+     "        if http_status.headers is not None:\n            resp.set_headers(http_status.headers)\n            http_status.headers = None\n",
+     '_compose_status_response#raised-http-status-is-not-modified'),
+    # ... or drops the cookies set so far
+    ('falcon/app.py', "        resp.text = http_status.text\n", "        resp.text = http_status.text\n        resp._cookies = None\n",
+     '_compose_status_response#only-status-headers-and-text-of-the-response-are-written'),
+    # rendering an HTTPError pops entries off the error's own headers dict / discards a stream set so far
+    ('falcon/app.py', "        if error.headers is not None:\n            resp.set_headers(error.headers)\n",
+     "        if error.headers is not None:\n            resp.set_headers(error.headers)\n            if isinstance(error.headers, dict):\n                error.headers.clear()\n",
+     '_compose_error_response#raised-http-error-is-not-modified'),
+    ('falcon/app.py', "        resp.status = error.status\n", "        resp.status = error.status\n        resp._extra_headers = None\n",
+     '_compose_error_response#only-status-headers-and-the-serialized-body-of-the-response-are-written'),
+    ('falcon/app.py', "        resp.status = error.status\n", "        resp.status = error.status\n        req.context_type = None\n",
+     '_compose_error_response#app-and-request-are-not-modified'),
+    # --- frames of the default handlers, HTTPError and the default serializer
+    # "a 500 must not carry cookies": the python error handler drops them / empties the responder params / marks the request
+    ('falcon/app.py', "        self._compose_error_response(req, resp, HTTPInternalServerError())\n", "        self._compose_error_response(req, resp, HTTPInternalServerError())\n        resp._cookies = None\n",
+     'falcon.app:App._python_error_handler#only-status-text-and-the-serialized-body-of-the-response-are-written'),
+    ('falcon/app.py', "        req.log_error(traceback.format_exc())\n", "        req.log_error(traceback.format_exc())\n        params.clear()\n",
+     'falcon.app:App._python_error_handler#app-exception-and-params-are-not-modified'),
+    ('falcon/app.py', "        req.log_error(traceback.format_exc())\n", "        req.log_error(traceback.format_exc())\n        req.unhandled_error = error\n",
+     'falcon.app:App._python_error_handler#request-is-not-modified'),
+    # to_dict fills one dict shared by all errors of the process / normalises the title in place
+    ('falcon/http_error.py', "        obj = obj_type()\n", "        obj = misc.__dict__.setdefault('_error_dict', obj_type())\n",
+     'HTTPError.to_dict#each-call-returns-a-new-dict'),
+    ('falcon/http_error.py', "        obj['title'] = self.title\n", "        self.title = obj['title'] = self.title or self.status\n", 'HTTPError.to_dict#to-dict-leaves-the-error-unchanged'),
+    # the constructor keeps an undocumented attribute / edits the headers dict it was given
+    ('falcon/http_error.py', "        self.code = code\n", "        self.code = code\n        self.href = href\n", 'HTTPError.__init__#sets-exactly-the-documented-attributes'),
+    ('falcon/http_error.py', "        self.headers = headers\n", "        self.headers = headers\n        if isinstance(headers, dict):\n            headers.setdefault('Vary', 'Accept')\n",
+     'HTTPError.__init__#given-headers-are-stored-not-modified'),
+    # to_json keeps the encoded document on the error; _to_xml keeps the element tree
+    ('falcon/http_error.py', "        return handler.serialize(obj, MEDIA_JSON)\n", "        self._json = handler.serialize(obj, MEDIA_JSON)\n        return self._json\n",
+     'HTTPError.to_json#to-json-leaves-the-error-unchanged'),
+    ('falcon/http_error.py', "        error_element = et.Element('error')\n", "        error_element = self._xml_root = et.Element('error')\n",
+     'HTTPError._to_xml#to-xml-leaves-the-error-unchanged'),
+    # nothing acceptable: the serializer replaces the error's own status by 406
+    ('falcon/app_helpers.py', "    if preferred is not None:\n        handler, _, _ = options.media_handlers._resolve(",
+     "    if preferred is None:\n        resp.status = '406 Not Acceptable'\n\n    if preferred is not None:\n        handler, _, _ = options.media_handlers._resolve(",
+     'default_serialize_error#only-the-body-of-the-response-is-written-status-and-cookies-stay'),
+    # the lower-cased Accept header is written back to the request / XML is switched off after its first use / links are dropped
+    ('falcon/app_helpers.py', "        accept = req.accept.lower()\n", "        accept = req.accept = req.accept.lower()\n", 'default_serialize_error#serializing-leaves-the-request-unchanged'),
+    ('falcon/app_helpers.py', "            resp.data = exception._to_xml()\n", "            resp.data = exception._to_xml()\n            options.xml_error_serialization = False\n",
+     'default_serialize_error#serializing-leaves-options-and-media-handlers-unchanged'),
+    ('falcon/app_helpers.py', "    options = resp.options\n", "    options = resp.options\n    exception.link = None\n", 'default_serialize_error#serializing-leaves-the-error-unchanged'),
 ]
 HARMLESS = [
     ('falcon/app.py', "            handler = self._error_handlers.get(exc)\n\n            if handler is not None:\n                return handler\n",
